@@ -89,6 +89,13 @@ def gen(seed, index):
             ops.append(["revert"])
         elif x < 0.73:
             ops.append(["clock_jump", r.choice([-86400, -3600, 3600, 86400 * 30])])
+        elif x < 0.80:
+            # an editor process rewrites a header WHILE a build is running (seeded interleaving of the two processes);
+            # that build may see the old or the new contents, the next one must see the new
+            ops.append(["edit_during_build", r.choice(HEADERS), r.randrange(len(BODIES)), r.choice(["file", "file", "string"]),
+                        r.randint(1, 10 ** 6)])
+            ops.append(["build", r.choice(["file", "file", "string"])])
+            continue
         else:
             ops.append(["build", r.choice(["file", "file", "string"])])
         if ops[-1][0] != "build" and r.random() < 0.6:
@@ -188,6 +195,34 @@ def execute(scn, sb):
                 break
             clock_off[0] += op[1] * 10 ** 9
             continue
+        elif op[0] == "edit_during_build":
+            if pending and not run_pending():
+                break
+            if scn.get("raw"):
+                continue
+            hdr, body, kind, iseed = op[1], op[2], op[3], op[4]
+            old_state = {h: list(state[h]) for h in HEADERS}
+            state[hdr][0] = body
+            history.append(json.dumps(state, sort_keys=True))
+            spec = job_spec(kind, sb, False)
+            if angle:
+                spec["props"]["okl"] = {"include_paths": [sb.proj]}
+            editor = {"kind": "none", "kernel": "k", "prewrite": {os.path.join(sb.proj, hdr): render(state[hdr][0], state[hdr][1], angle=(angle == 2))}}
+            g = ps.run_group(sb, iseed, [ps.VProcSpec({"mode": mode, "jobs": [spec]}),
+                                         ps.VProcSpec({"mode": mode, "jobs": [editor]}, delay=iseed % 170)],
+                             strategy=("uniform",), clock0=max(0, acc["steps"] * 10 ** 6 + clock_off[0] + 10 ** 15), maxsteps=MAXSTEPS, timeout=300)
+            acc["steps"] += g.gsteps
+            logs.extend(g.log)
+            probes["builds_overlapping_an_edit"] = probes.get("builds_overlapping_an_edit", 0) + 1
+            edits_between += 1
+            o = g.outputs[0][0] if g.outputs[0] else {"status": "none"}
+            tag = "build overlapping the edit of %s" % hdr
+            if g.vp[0]["sig"]:
+                violations.append(["crash", "%s died with signal %d" % (tag, g.vp[0]["sig"])])
+                break
+            # (the overlapping build itself is not judged: it may have read the header before, after or in the middle of
+            # the rewrite - even a compile error is legitimate; what counts is the next build, which follows in the history)
+            continue
         if op[0] != "build":
             history.append(json.dumps(state, sort_keys=True))
             if not pending:
@@ -239,7 +274,7 @@ def signature(scn, out):
         # non-OKL kernels record no dependencies at all: any edit of an included header is missed,
         # whatever the edit was; one finding, not one per edit kind
         return "%s|stale-output|okl=off" % PROP
-    kinds = sorted(set(op[0] for op in scn["ops"] if op[0] != "build"))
+    kinds = sorted(set(op[0].replace("edit_during_build", "edit-during-build") for op in scn["ops"] if op[0] != "build"))
     return "%s|%s|%s|okl=%s|edits=%s%s" % (PROP, v[0], msg, "off" if scn.get("raw") else "on", "+".join(kinds),
                                            ("|angle-include" if scn.get("angle") else "") +
                                            ("|several-builds-in-one-process" if scn.get("inproc", 1) > 1 else ""))
